@@ -26,6 +26,17 @@ def sources(tier, wd, out, per_focus_quick=250, per_focus_thorough=1200, foci=FO
                 continue
             seen.add(svg)
             res.append((f, svg, d))
+    import itertools
+    for n in (3, 4):
+        for perm in itertools.permutations(["ga", "gb", "gc", "gd"][:n]):
+            defs = "".join('<linearGradient id="%s" x2="%d" gradientUnits="userSpaceOnUse"><stop offset="0" '
+                           'stop-color="red"/><stop offset="1" stop-color="blue"/></linearGradient>' % (g, 3 + k)
+                           for k, g in enumerate(perm))
+            body = "".join('<rect x="%d" y="1" width="3" height="9" fill="url(#%s)"%s/>'
+                           % (1 + 4 * k, g, ' transform="translate(0,%d)"' % k if k % 2 else "")
+                           for k, g in enumerate(sorted(perm)))
+            res.append(("family/gradient-order", '<svg xmlns="http://www.w3.org/2000/svg" viewBox="0 0 16 16">'
+                        '<defs>%s</defs>%s</svg>' % (defs, body), None))
     for path in sorted(glob.glob(os.path.join(common.REPO, "tests", "*.svg"))):
         try:
             res.append(("tests/" + os.path.basename(path), open(path).read(), None))
